@@ -201,6 +201,8 @@ def main(tier, seed, only=None):
              bounds="small cases of the C05 / C18 harnesses", symbolic="see C05, C18", assumptions=["see C05, C18"], stubs=["see C05, C18"],
              outside=["'final percent fed >= no-feed percent fed' and '>= threshold whenever round 1 reaches it': relations between three dependent CBC optima through the herd simulation - no encoding within reach (DESIGN C03)"]),
     ]
+    from harness import glue as GL
+    groups.append(dict(GL.GROUP, cases=[dict(N=2)] + ([dict(N=3)] if thorough else [])))
     vlib.run_groups(rep, MOD, groups, seed, only)
     return rep.finish()
 
